@@ -541,5 +541,31 @@ func runC05(c *fw.Ctx) {
 			}
 		}
 	}
+	// seeded longer lists: n = 4..10, random spacing, random pattern and target
+	nrand := c.Pick(400, 30000)
+	for _, kind := range c05Kinds {
+		i := idx
+		idx++
+		if !c.Mine(i) {
+			continue
+		}
+		kind := kind
+		id := fmt.Sprintf("%s/random-long", kind.name)
+		c.Case(id, func() {
+			r := c.Rand(id)
+			for k := 0; k < nrand; k++ {
+				n := 4 + r.Intn(7)
+				sp := make([]dst.SpaceType, 2*n)
+				for j := range sp {
+					sp[j] = spaces[r.Intn(3)]
+				}
+				pattern := c05Patterns[r.Intn(len(c05Patterns))]
+				target := r.Intn(n - 1)
+				c05Case(c, kind, n, pattern, sp, target)
+				c.Count("random_long_lists", 1)
+				c.Nontrivial(id, fmt.Sprint(k))
+			}
+		})
+	}
 	_ = reflect.TypeOf
 }
